@@ -328,7 +328,7 @@ def run_model(ctx, mode, scenarios, shapes, fail_at=None):
         if fail_at is not None and s.failcopy:
             ml[s.copy_at + 1] = "failcopy %d" % fail_at
         text.append("scenario %s %s\n%s\nend\n" % (s.tag, s.args if s.kind != "comp" else "comp " + s.args.split()[1], "\n".join(ml)))
-    out = ctx.driver(["c19", mode], "".join(text))
+    out = ctx.driver(["c19"] + (mode if isinstance(mode, list) else [mode]), "".join(text))
     res, cur = [], []
     for l in out:
         if l.startswith("exit "):
@@ -393,9 +393,24 @@ def klass(c):
     return "dangling" if c in ("use-after-free", "double-free") else c
 
 
-def judge(ctx, s, hres, mmain, mcur, stats):
-    """classify one scenario.  Returns None if fine, else (key, what, found_input)."""
+VARIANTS = [("repaired", "sim"), ("data-current", ["sim-mix", "data"]), ("fragtable-current", ["sim-mix", "fragtable,idtable"]),
+            ("current", "sim-current")]
+
+
+def judge(ctx, s, hres, var, stats):
+    """classify one scenario.  `var`: variant name -> model result (hooks repaired / partly repaired / current).
+    Returns None if fine, else (key, what, found_input)."""
     hans, hexit = hres
+    mmain = var["repaired"]
+    cl = lambda ans: next((norm_ctl(l) for l in ans if l.startswith("copy ok")), None)
+    hp = cl(hans)
+    # the model of the hooks this tree has: the first variant whose fresh copy shows the facts the probe shows; without
+    # a probe (failed copy) the first variant that explains the run
+    if hp is not None:
+        name = next((n for n, _ in VARIANTS if cl(var[n][0]) == hp), "current")
+    else:
+        name = next((n for n, _ in VARIANTS if compare(s, hres, var[n])[0]), "current")
+    mcur = var[name] if name != "repaired" else var["current"]
     hcls = hexit[0]
     div = divergences(s, hres)
     fdleak = any(l.startswith("fds-at-end") and l.split()[1] not in ("+0", "0") for l in hans)
@@ -540,28 +555,26 @@ def run(ctx):
         pl = next((l for l in hans if l.startswith("copy ok")), None)
         probe = parse_probe(pl) if pl else getattr(s, "base_probe", None)
         shapes.append(shape_of(probe) if probe else "shape - - -")
-    mmain = run_model(ctx, "sim", allsc, shapes)
-    mcur = run_model(ctx, "sim-current", allsc, shapes)
+    var = {n: run_model(ctx, mode, allsc, shapes) for n, mode in VARIANTS}
     # allocation-failure variants: the k-th real allocation corresponds to *some* failing step of the hook's model
     # (one model step may stand for several real allocations), so the model is run for every failing step j and the
     # real outcome must be explained by one of them
     if fscs:
         fsh = shapes[len(scs):]
-        alts_main = [run_model(ctx, "sim", fscs, fsh, fail_at=j) for j in range(1, 9)]
-        alts_cur = [run_model(ctx, "sim-current", fscs, fsh, fail_at=j) for j in range(1, 9)]
-        for i, (s, hr) in enumerate(zip(fscs, fres)):
-            for alts, dest in ((alts_main, mmain), (alts_cur, mcur)):
+        for n, mode in VARIANTS:
+            alts = [run_model(ctx, mode, fscs, fsh, fail_at=j) for j in range(1, 9)]
+            for i, (s, hr) in enumerate(zip(fscs, fres)):
                 for a in alts:
                     if compare(s, hr, a[i])[0]:
-                        dest[len(scs) + i] = a[i]
+                        var[n][len(scs) + i] = a[i]
                         break
     stats = {"outcomes": {}, "kinds": {}, "findings": {}}
     nviol = 0
     pair_checks = 0
-    for s, hr, mm, mc in zip(allsc, allres, mmain, mcur):
+    for idx, (s, hr) in enumerate(zip(allsc, allres)):
         stats["kinds"][s.kind] = stats["kinds"].get(s.kind, 0) + 1
         pair_checks += sum(1 for i, j in s.pairs if i < len(hr[0]) and j < len(hr[0]))
-        v = judge(ctx, s, hr, mm, mc, stats)
+        v = judge(ctx, s, hr, {n: var[n][idx] for n, _ in VARIANTS}, stats)
         if v:
             key, what, found = v
             stats["findings"][key] = stats["findings"].get(key, 0) + 1
